@@ -364,9 +364,18 @@ orc_x86_add_strides (OrcCompiler *c)
     switch (c->vars[i].vartype) {
       case ORC_VAR_TYPE_SRC:
       case ORC_VAR_TYPE_DEST:
-        orc_x86_emit_mov_memoffset_reg (c, 4,
-            (int)ORC_STRUCT_OFFSET (OrcExecutor, params[i]), c->exec_reg,
-            c->gp_tmpreg);
+        /* the stride is a signed int: it has to be sign-extended before it
+         * is added to a 64-bit pointer (bottom-up images have negative
+         * strides) */
+        if (c->is_64bit) {
+          orc_x86_emit_cpuinsn_memoffset_reg (c, ORC_X86_movslq_rm_r, 8,
+              (int)ORC_STRUCT_OFFSET (OrcExecutor, params[i]), c->exec_reg,
+              c->gp_tmpreg);
+        } else {
+          orc_x86_emit_mov_memoffset_reg (c, 4,
+              (int)ORC_STRUCT_OFFSET (OrcExecutor, params[i]), c->exec_reg,
+              c->gp_tmpreg);
+        }
         orc_x86_emit_add_reg_memoffset (c, c->is_64bit ? 8 : 4,
             c->gp_tmpreg,
             (int)ORC_STRUCT_OFFSET (OrcExecutor, arrays[i]),
